@@ -86,11 +86,53 @@ def classify(c, g, l):
     return "mismatch", "results differ"
 
 
-def run_cases(chk, cases, nontrivial=None, known_switch_ids=None, label=""):
+def context_variants(cases, seed):
+    """Statement-position and repetition variants of a sample of the cases (about 1 in 10): the same query as a CTE body
+    read through `SELECT *`, as both branches of a UNION ALL, and simply repeated later in the same process.  Defects that
+    live in the machinery around a statement (query copies, option propagation, caches, memos) show only there."""
+    import copy
+    import random as _r
+    rnd = _r.Random(seed)
+    out = []
+    for c in cases:
+        if c.get("q") is None or c["mode"] not in ("seq", "multiset") or rnd.random() > 0.1:
+            continue
+        q = c["q"]
+        kind = rnd.choice(["cte", "union", "repeat"])
+        if kind == "union" and not (q[0] == "select" and not q[1] and not q[8] and q[9] is None and q[10] is None):
+            kind = "cte"       # a UNION branch cannot carry its own WITH / ORDER BY / LIMIT without parentheses
+        # only the generic fields: what a property attaches for its own post-processing (staged evaluation, textbook
+        # reference, …) is about the original query
+        c2 = {k: c.get(k) for k in ("doc", "q", "mode", "wrapped", "pg", "arr", "consts", "sql", "tag", "order_keys",
+                                    "source_rows", "num_kind", "vars", "tables")}
+        if kind == "cte":
+            q2 = ["select", [["zz_ctx", copy.deepcopy(q)]], False, [["star"]], ["table", ["zz_ctx"], "", "zz_ctx"], ["bool", True],
+                  [], ["bool", True], [], None, None, {}]
+        elif kind == "union":
+            q2 = ["union", [], copy.deepcopy(q), copy.deepcopy(q), False, [], None, None, {}]
+        else:
+            q2 = q
+        try:
+            c2["q"] = q2
+            c2["sql"] = query_sql(q2)
+        except Exception:
+            continue
+        c2["tag"] = "ctx:" + kind
+        out.append(c2)
+    return out
+
+
+def run_cases(chk, cases, nontrivial=None, known_switch_ids=None, label="", variants=True):
     """Runs all cases on both sides, records mismatches as violations (or known findings when the
     as-is model explains them and the finding is listed), fills the coverage counters."""
     if not cases:
         return []
+    if variants:
+        extra = context_variants(cases, len(cases) * 7919 + chk.seed)
+        chk.cov["context_variants"] = chk.cov.get("context_variants", 0) + len(extra)
+        chk.cov["context_variants_rule"] = ("about 1 in 10 generated queries is additionally run as a CTE body read through SELECT *, "
+                                            "as both branches of a UNION ALL, or simply a second time in the same process")
+        cases = list(cases) + extra
     gos = run_go([go_req(c) for c in cases])
     leans = run_lean([lean_req(c) for c in cases])
     findings = [f for f in load_findings() if f.get("property") == chk.prop and f.get("switch")]
